@@ -398,13 +398,112 @@ fn probes(mon: &mut C09) {
     }
 }
 
+/// Coins locked by adversarial covenant programs, spent through apply_tx: the interpreter and the
+/// weigher run inside validation, so whatever a program does there must end in accept or reject.
+fn covenant_scenario(mon: &mut C09, case_seed: u64) {
+    use crate::refvm::{self, Op};
+    use melstructs::{BlockHeight, CoinData, CoinDataHeight, CoinID, CoinValue, TxHash};
+    let mut r = Rng::new(case_seed ^ 0xc0de);
+    let pushi = |n: u128| {
+        let mut a = [0u8; 32];
+        a[16..].copy_from_slice(&n.to_be_bytes());
+        Op::PushI(a)
+    };
+    let net = *r.pick(&[NetID::Custom02, NetID::Custom08, NetID::Mainnet]);
+    let height = 1_100_000 + r.below(100);
+    let mut fab = Fab::new(net, height);
+    let mut progs: Vec<(String, Vec<u8>)> = vec![];
+    for k in 0..6 {
+        let (name, ops): (&str, Vec<Op>) = match r.below(8) {
+            0 => {
+                // byte-string doubling (kept below 2^62 elements) followed by a consumer
+                let rounds = 1 + r.usize(60);
+                let mut v = vec![Op::PushB(vec![7u8; 1 + r.usize(32)])];
+                for _ in 0..rounds {
+                    v.push(Op::Dup);
+                    v.push(Op::BAppend);
+                }
+                v.push(r.pick(&[Op::BLength, Op::Hash(65535), Op::BtoI, Op::TypeQ, Op::Dup, Op::Bez(0)]).clone());
+                ("doubling", v)
+            }
+            1 => {
+                let depth = 1 + r.usize(12);
+                let mut v = vec![];
+                for d in 0..depth {
+                    v.push(Op::Loop(*r.pick(&[0u16, 1, 2, 3]), (depth - d) as u16));
+                }
+                v.push(Op::Noop);
+                ("nested-loops", v)
+            }
+            2 => ("random-bytes", vec![]),
+            3 => {
+                let v: Vec<Op> = (0..1 + r.usize(40)).map(|_| crate::mon::c12::random_op(&mut r, false)).collect();
+                ("random-ops", v)
+            }
+            4 => ("vector-doubling", {
+                let rounds = 1 + r.usize(60);
+                let mut v = vec![Op::VEmpty, pushi(1), Op::VCons];
+                for _ in 0..rounds {
+                    v.push(Op::Dup);
+                    v.push(Op::VAppend);
+                }
+                v.push(r.pick(&[Op::VLength, Op::TypeQ, Op::Dup]).clone());
+                v
+            }),
+            5 => ("deep-env-access", vec![pushi(r.below(300) as u128), pushi(r.below(12) as u128), Op::LoadImm(r.below(12) as u16), Op::VRef, Op::VRef]),
+            6 => ("exp-and-shift", vec![pushi(r.u128()), pushi(r.u128()), Op::Exp(r.next() as u8), pushi(r.below(300) as u128), Op::Shl, Op::ItoB, Op::BtoI]),
+            _ => ("always-true", vec![pushi(1)]),
+        };
+        let bytes = if name == "random-bytes" { r.bytes(1 + r.clone().usize(60)) } else { refvm::encode(&ops).unwrap_or_default() };
+        let id = CoinID { txhash: TxHash(tmelcrypt::hash_keyed(b"c09cov", (case_seed ^ k).to_be_bytes())), index: 0 };
+        fab.coins.push((id, CoinDataHeight { coin_data: CoinData { covhash: addr_of(&bytes), value: CoinValue(1 << 40), denom: Denom::Mel, additional_data: Bytes::from(r.bytes(r.clone().usize(8))) }, height: BlockHeight(height - 1) }));
+        progs.push((name.to_string(), bytes));
+    }
+    let db = new_db();
+    let sealed = fab.build(&db);
+    let st = sealed.next_unsealed();
+    // spend 1-3 of them in one transaction
+    for _ in 0..4 {
+        let n = 1 + r.usize(3);
+        let mut idx: Vec<usize> = (0..progs.len()).collect();
+        r.shuffle(&mut idx);
+        idx.truncate(n);
+        let inputs: Vec<CoinID> = idx.iter().map(|i| fab.coins[*i].0).collect();
+        let total: u128 = (1u128 << 40) * n as u128;
+        let tx = Transaction {
+            kind: TxKind::Normal,
+            inputs,
+            outputs: vec![melstructs::CoinData { covhash: destroy_addr(), value: melstructs::CoinValue(total), denom: Denom::Mel, additional_data: Bytes::new() }],
+            fee: melstructs::CoinValue(0),
+            covenants: idx.iter().map(|i| Bytes::from(progs[*i].1.clone())).collect(),
+            data: Bytes::from(r.bytes(r.clone().usize(40))),
+            sigs: vec![Bytes::from(r.bytes(64))],
+        };
+        let names: Vec<String> = idx.iter().map(|i| progs[*i].0.clone()).collect();
+        mon.journal(&format!("C09 case={} covenant-spend programs={:?}", case_seed, names));
+        mon.rep.eval();
+        mon.rep.count("apply_tx calls spending adversarial covenants");
+        mon.rep.nontrivial(fnv(&tx.hash_nosigs().0 .0));
+        let mut s2 = st.clone();
+        let t2 = tx.clone();
+        if let Err(p) = guarded(move || s2.apply_tx(&t2).is_ok()) {
+            if is_debug_only_dependency_overflow(&p) {
+                mon.rep.count(&format!("excluded: overflow trap inside dependency '{}' present only with overflow checks", p.origin));
+            } else {
+                let sig = format!("C09|panic:{}:{}|apply_tx|covenant:{}", p.origin, msg_class(&p.message), names.join("+"));
+                mon.rep.violate(&sig, format!("apply_tx panicked while validating covenants {:?}: {} at {}", names, p.message, site(&p.location)), json!({"case_seed": case_seed, "tx_hex": tx_hex(&tx), "programs_hex": idx.iter().map(|i| hex::encode(&progs[*i].1)).collect::<Vec<_>>()}));
+            }
+        }
+    }
+}
+
 pub fn run(p: &Params) -> Report {
     let total = p.n(2400, 60000);
     let mine = p.share(total);
     let mut rng = Rng::new(p.shard_seed() ^ 0xC09);
     let journal = p.journal.as_ref().and_then(|j| std::fs::File::create(j).ok());
     let mut mon = C09 { rep: Report::new("C09"), case_seed: 0, journal };
-    mon.rep.rule = "cases = API calls (apply_tx_batch, seal, next_unsealed, apply_block, confirm, from_block+header) on random histories over all network classes and fabricated heights with: one hostile mutation per batch (16 field-level mutators + byte-level mutation of the serialization that still deserializes), degenerate requests (zero-valued swaps/deposits/withdrawals, empty/garbage/partial MelPoW proofs at difficulties 0..2^32, undecodable stake documents, faucet-minted liquidity tokens, maximal values), every proposer delta class, multipliers 0..2^40; every call runs under catch_unwind with a panic hook that records message, location and originating crate; each shard is its own process with a journal so an abort is attributed. Supply per denomination is kept below 2^127 by construction. Non-trivial = batch with a hostile or degenerate member; distinct by member hashes".into();
+    mon.rep.rule = "cases = API calls (apply_tx_batch, seal, next_unsealed, apply_block, confirm, from_block+header) on random histories over all network classes and fabricated heights with: one hostile mutation per batch (16 field-level mutators + byte-level mutation of the serialization that still deserializes), degenerate requests (zero-valued swaps/deposits/withdrawals, empty/garbage/partial MelPoW proofs at difficulties 0..2^32, undecodable stake documents, faucet-minted liquidity tokens, maximal values), every proposer delta class, multipliers 0..2^40; coins locked by adversarial covenant programs (self-append doubling up to 2^60 elements, nested loops, random bytes/instructions, environment digging) spent through apply_tx; every call runs under catch_unwind with a panic hook that records message, location and originating crate; each shard is its own process with a journal so an abort is attributed. Supply per denomination is kept below 2^127 by construction. Non-trivial = batch with a hostile or degenerate member; distinct by member hashes".into();
     if p.shard == 0 && p.only_case.is_none() {
         probes(&mut mon);
     }
@@ -418,6 +517,7 @@ pub fn run(p: &Params) -> Report {
         mon.case_seed = case_seed;
         let mut r = Rng::new(case_seed ^ 9);
         scenario_history(&mut mon, case_seed, &mut r);
+        covenant_scenario(&mut mon, case_seed);
     }
     if p.only_case.is_none() {
         mon.rep.require("apply_tx_batch calls", p.n(1500, 30000));
